@@ -468,6 +468,11 @@ func (p *Program) assertStructure() {
 					}
 				case *ssa.Call:
 					cc := x.Common()
+					if cc.IsInvoke() && IsErrorMethodCall(cc) {
+						// err.Error(): the text of an error value (to put it into a panic message); the error values of
+						// these packages are errors.New / fmt.Errorf values, whose Error method only reads its own string
+						continue
+					}
 					if cc.IsInvoke() {
 						bad(f, in, "interface method call")
 					} else if cc.StaticCallee() == nil {
@@ -575,4 +580,10 @@ func isGenericOrigin(f *ssa.Function) bool {
 		}
 	}
 	return false
+}
+
+// IsErrorMethodCall: the call is err.Error() on a value of the predeclared interface type error.
+func IsErrorMethodCall(cc *ssa.CallCommon) bool {
+	return cc.IsInvoke() && cc.Method != nil && cc.Method.Name() == "Error" && len(cc.Args) == 0 &&
+		types.Identical(cc.Value.Type(), types.Universe.Lookup("error").Type())
 }
